@@ -70,6 +70,7 @@ class Sweep:
         self.timed_out = False
         self.first = indices_from
         self.prefix = []  # e.g. valgrind
+        self.bulk = False  # bulk cross-backend sweep (plain flavours)
         self.cold = False  # one run per fresh process, simulated execution before the reference run
         self.nviol = 0  # runs with a violation in their result line
         self.hangs = []  # (index, seed): a worker printed nothing for HANG_S seconds of wall clock and was killed
@@ -262,7 +263,7 @@ def run_replay_file(binary, path, record=False, timeout=300):
 # ------------------------------------------------------------------------------------------------
 # violations: normalisation, attribution, gating, minimisation
 # ------------------------------------------------------------------------------------------------
-OP_PROP = {"NTT": "C03", "INTT": "C04", "ROUNDTRIP": "C04", "EXTEND": "C05", "MERKLE": "C08", "PARCPY": "C17", "PARSETZERO": "C17"}
+OP_PROP = {"MERKLE_XCHECK": "C08", "NTT": "C03", "INTT": "C04", "ROUNDTRIP": "C04", "EXTEND": "C05", "MERKLE": "C08", "PARCPY": "C17", "PARSETZERO": "C17"}
 SIGNAMES = {6: "SIGABRT", 11: "SIGSEGV", 8: "SIGFPE", 7: "SIGBUS", 4: "SIGILL"}
 
 
@@ -422,6 +423,16 @@ def shrink_candidates(plan):
                 yield setk("extension", 1)
                 if o["extension"] > 2:
                     yield setk("extension", o["extension"] // 2)
+        elif kind == "MERKLE_XCHECK":
+            if o["rows"] > 1:
+                yield setk("rows", o["rows"] // 2)
+            if o["cols"] > 1:
+                yield setk("cols", o["cols"] // 2)
+                yield setk("cols", o["cols"] - 1)
+            if o["dim"] > 1:
+                yield setk("dim", 1)
+            if o["nthreads"] != 1:
+                yield setk("nthreads", 1)
         elif kind == "MERKLE":
             if o["rows"] > 1:
                 yield setk("rows", o["rows"] // 2)
@@ -594,7 +605,7 @@ def replay_mode(prop, path):
     if "avx512" in flavour and not B.cpu_has_avx512():
         harness_error("replay needs AVX-512 hardware")
     bins, _ = build_all([flavour])
-    if flavour.startswith("plain"):
+    if flavour.startswith("plain") and plan.get("profile") != "C08X":
         REPLAY_PREFIX[bins[flavour]] = ["valgrind", "-q", "--error-exitcode=77", "--exit-on-first-error=yes", "--leak-check=no"]
     rep = run_replay_file(bins[flavour], path)
     fs = findings_of(rep, plan, bins[flavour])
@@ -667,6 +678,25 @@ def main():
         log("cold  %-11s runs=%d wall=%.1fs (one fresh process per run, simulated execution first) crashes=%d" % (cs.flavour, len(cs.results), cs.wall, len(cs.crashes)))
         sweeps.append(cs)
 
+    # ---- bulk cross-backend agreement of the tree builders in the uninstrumented (as shipped -O3) builds: thorough C08.
+    #      ~10^8 permutations through the vector kernels; a value-dependent divergence is only ever found by volume.
+    if prop == "C08" and tier == "thorough":
+        nb = int(os.environ.get("VERIF_BULK_RUNS", 24000))
+        for k, f in enumerate(["plain-avx2", "plain-avx512"]):
+            if "avx512" in f and not B.cpu_has_avx512():
+                continue
+            try:
+                bbin, binfo = B.build(f)
+            except RuntimeError as e:
+                harness_error("build of %s failed: %s" % (f, e.args,))
+            infos[f] = binfo
+            bs = Sweep(bbin, f, "C08X", seed * 1000003 + 55001 + k, nb, NPROC, dict(lim), time.time() + 400, samples=False)
+            bs.bulk = True
+            bs.run()
+            perms = sum(r["faults"].get("bulk_permutations", 0) for r in bs.results.values())
+            log("bulk  %-11s runs=%d wall=%.1fs (every tree builder on one large input, trees compared; %.2e permutations) crashes=%d" % (f, len(bs.results), bs.wall, perms, len(bs.crashes)))
+            sweeps.append(bs)
+
     # ---- valgrind memcheck over the uninstrumented (as shipped -O3) build: thorough tier of C18 ----------
     vg_sweep = None
     if prop == "C18" and tier == "thorough" and shutil.which("valgrind"):
@@ -695,6 +725,8 @@ def main():
             gg = g if wcount == 5 else max(20, g // 8)
             if sw.cold:
                 gg = min(gg, 48)
+            if sw.bulk:
+                gg = min(gg, 160)
             if len(sw.crashes) + len(sw.sanitizer) + len(sw.fatals) > 100:
                 gg = min(gg, 40)  # a tree this broken restarts a worker per run; every violation is gated by its own replays anyway
             s2 = Sweep(sw.binary, sw.flavour, sw.profile, sw.base, gg, wcount, sw.lim, time.time() + 150)
@@ -719,7 +751,7 @@ def main():
     # ---- replay gate: a strategy replaced by its recorded decision list must give the same interleaving --------
     replay_checked = 0
     for sw in sweeps:
-        if sw.prefix or sw.cold or sw.flavour.startswith("asan"):
+        if sw.prefix or sw.cold or sw.bulk or sw.flavour.startswith("asan"):
             continue
         picked = [i for i, r in sorted(sw.results.items()) if r.get("nontrivial") and r.get("ok")][:10]
         for i in picked:
@@ -870,7 +902,7 @@ def write_evidence(prop, tier, seed, sweeps, infos, gate_checked, violations, kn
     for sw in sweeps:
         pf = dict(runs=len(sw.results), wall_s=round(sw.wall, 2), crashes=len(sw.crashes), sanitizer_reports=len(sw.sanitizer), no_progress=len(sw.fatals), worker_restarts=sw.restarts, stopped_at_cap=sw.timed_out,
                   runs_per_hour=int(len(sw.results) / max(sw.wall, 1e-3) * 3600))
-        per_flavour[sw.flavour + ("/cold-start" if sw.cold else "") + ("/valgrind" if sw.prefix else "")] = pf
+        per_flavour[sw.flavour + ("/cold-start" if sw.cold else "") + ("/valgrind" if sw.prefix else "") + ("/bulk-cross-backend" if sw.bulk else "")] = pf
         for i, r in sw.results.items():
             evals += 1
             shapes.add((sw.flavour, r["shape"]))
